@@ -692,7 +692,15 @@ def coq_file(cases, results, jobs=None):
         "  end.",
         "Definition cases : list case_t := [",
     ]
-    lines.append(";\n".join("  " + coq_case(c, j, r) for c, j, r in zip(cases, jobs, results)))
+    def safe_case(c, j, r):
+        try:
+            return coq_case(c, j, r)
+        except (ValueError, IndexError, KeyError, TypeError) as e:
+            # the implementation's output cannot be expressed in the model's vocabulary (e.g. fewer captions than
+            # parallel edges): the case is printed as "implementation raised", which disagrees with a model that builds
+            c.setdefault("unabstractable", "%s: %s" % (type(e).__name__, str(e)[:120]))
+            return "(%s, None, [], [])" % coq_schema(c)
+    lines.append(";\n".join("  " + safe_case(c, j, r) for c, j, r in zip(cases, jobs, results)))
     lines += [
         "].",
         "Definition failing : list nat :=",
